@@ -17,7 +17,8 @@ from . import c05
 WHOLE_STYLES = ["dash", "dash_nb", "dash_ind", "hash", "hash_ind", "block1", "block1_ind", "multi"]
 TRAIL_STYLES = ["t_dash", "t_dash_nb", "t_block"]
 FILL = ["CREATE TABLE", "create table x (", "NOT NULL", "PRIMARY KEY", "select * from", "DROP", "ALTER TABLE t ADD", "INSERT", "GO", "SET",
-        ",", "(", ")", ";", "=", "a = b", ", ,", "((", "))", ");", "word", "todo", "int", "DEFAULT 5", "x , y", "end;", "USE db;", "references t (id)"]
+        ",", "(", ")", ";", "=", "a = b", ", ,", "((", "))", ");", "word", "todo", "int", "DEFAULT 5", "x , y", "end;", "USE db;", "references t (id)",
+        "//", "see https://wiki.local/money", "a // b", "path/to//x"]
 IN_COMMENT_RE = re.compile(r"((\")|(\'))+(.)*(--)+(.)*((\")|(\'))+")  # frozen copy of the pre-processor's test (K21 predicate)
 
 
